@@ -525,8 +525,9 @@ static void explore(bool big)
                 if (seen.insert(r.key).second) { states++; next.push_back(std::move(h2)); }
             }
             if (g_cxx_viol > 20) break;
+            if (vx::deadline_reached()) { exhaustive = false; break; } // between complete work units (one frontier state x all ops)
         }
-        if (g_cxx_viol > 20) break;
+        if (g_cxx_viol > 20 || !exhaustive) break;
         completed = depth;
         frontier.swap(next);
         fprintf(stderr, "[C60 banman] depth %d: states=%lu transitions=%lu frontier=%zu t=%.1fs\n", depth, (unsigned long)states, (unsigned long)transitions, frontier.size(), vx::elapsed());
